@@ -95,6 +95,16 @@ def run(run):
                     fam.append('FROM %s AS x WHERE x.getName() == "%s" SELECT x.getVisibility(), x' % (k1, lit))
                 for k2 in kinds:
                     fam.append('FROM %s AS x WHERE x.getName() != "%s" SELECT x.getName()' % (k2, v1))
+                # white-space twins: texts that differ only in the amount or kind of white space — inside a literal (another
+                # literal), between tokens (the same query), next to the `in` token (one of them is not a query at all)
+                for a, b in (("by  Jane", "by Jane"), ("a\tb", "a b"), (" x", "x"), ("two  blanks ", "two blanks")):
+                    fam.append('FROM %s AS x WHERE x.getName() != "%s" SELECT x.getName(), "%s"' % (k1, a, a))
+                    fam.append('FROM %s AS x WHERE x.getName() != "%s" SELECT x.getName(), "%s"' % (k1, b, b))
+                fam.append('FROM %s AS x WHERE x.getName() in ["%s", "%s"] SELECT x.getName()' % (k1, v1, v2))
+                fam.append('FROM %s AS x WHERE x.getName()  in  ["%s", "%s"] SELECT x.getName()' % (k1, v1, v2))
+                fam.append('FROM %s AS x WHERE x.getName() in ["%s",  "%s"]   SELECT   x.getName()' % (k1, v1, v2))
+                fam.append('FROM  %s  AS  x  WHERE  x.getName()\tin\t["%s", "%s"] SELECT x.getName()' % (k1, v1, v2))
+                stats["whitespace_twin_queries"] += 11
                 # joins over the same kinds: selective, then unrestricted, other aliases, other order
                 small = [k for k in ("class_declaration", "method_declaration", "variable_declaration", "ClassInstanceExpr") if k in kinds and len(proj.by_kind.get(k, [])) <= 40]
                 if len(small) >= 2:
